@@ -6,6 +6,7 @@
   grammar `Qualified` and the judge `judgePQN` are in CdiModel/ParserSpec.lean.
 -/
 import CdiProofs.Lemmas.Parser
+import CdiProofs.Lemmas.Tables
 namespace Cdi.Parser
 open Cdi
 
@@ -284,5 +285,49 @@ example : Qualified (lit "vendor.com/class=dev:0") :=
   ⟨lit "vendor.com", lit "class", lit "dev:0", by decide, by decide, by decide, by decide⟩
 example : parseQualifiedName (lit "a/b=c") = .ok ⟨lit "a", lit "b", lit "c", true⟩ := by decide
 example : parseQualifiedName (lit "a/b=") = .ok ⟨[], [], lit "a/b=", false⟩ := by decide
+
+/-! ### T1 — the character classes, tied to the code on the WHOLE code space by execution
+
+`Generated.isLetterRanges` etc. are produced on every run by calling `parser.IsLetter`, `IsDigit`,
+`IsAlphaNumeric` of the working tree on every code point 0..0x10FFFF.  The obligations say: no evaluation
+panicked; on every byte the model's class is exactly the table; and no code point ≥ 128 is in any class —
+which is what assumption A-utf8 needs (ranging over a string can only yield such code points for non-ASCII
+bytes), so "every rune is in the class" and "every byte is in the class" coincide. -/
+
+theorem T1_tables_complete : Generated.tableErrors = [] := by decide
+
+set_option maxRecDepth 100000 in
+theorem T1_isLetter_bytes : ∀ n, n < 256 → isLetter n.toUInt8 = inRanges Generated.isLetterRanges n := by
+  decide +kernel
+set_option maxRecDepth 100000 in
+theorem T1_isDigit_bytes : ∀ n, n < 256 → isDigit n.toUInt8 = inRanges Generated.isDigitRanges n := by
+  decide +kernel
+set_option maxRecDepth 100000 in
+theorem T1_isAlnum_bytes : ∀ n, n < 256 → isAlnum n.toUInt8 = inRanges Generated.isAlphaNumericRanges n := by
+  decide +kernel
+
+theorem T1_classes_ascii :
+    ∀ r ∈ Generated.isLetterRanges ++ Generated.isDigitRanges ++ Generated.isAlphaNumericRanges, r.2 < 128 := by
+  decide
+
+/-- **T1**: on every code point `c` (no bound), the code's `IsLetter c` — as tabulated — holds iff `c` is an
+ASCII byte that the model's `isLetter` accepts. -/
+theorem T1_isLetter (c : Nat) :
+    inRanges Generated.isLetterRanges c = (decide (c < 128) && isLetter c.toUInt8) := by
+  by_cases h : c < 128
+  · rw [← T1_isLetter_bytes c (by omega)]; simp [h]
+  · rw [inRanges_false_of_bound _ 128 (fun r hr => T1_classes_ascii r (by simp [hr])) c (by omega)]; simp [h]
+
+theorem T1_isDigit (c : Nat) :
+    inRanges Generated.isDigitRanges c = (decide (c < 128) && isDigit c.toUInt8) := by
+  by_cases h : c < 128
+  · rw [← T1_isDigit_bytes c (by omega)]; simp [h]
+  · rw [inRanges_false_of_bound _ 128 (fun r hr => T1_classes_ascii r (by simp [hr])) c (by omega)]; simp [h]
+
+theorem T1_isAlnum (c : Nat) :
+    inRanges Generated.isAlphaNumericRanges c = (decide (c < 128) && isAlnum c.toUInt8) := by
+  by_cases h : c < 128
+  · rw [← T1_isAlnum_bytes c (by omega)]; simp [h]
+  · rw [inRanges_false_of_bound _ 128 (fun r hr => T1_classes_ascii r (by simp [hr])) c (by omega)]; simp [h]
 
 end Cdi.Parser
